@@ -25,7 +25,8 @@ def handle0 (inp out : Sexp) : CaseResult :=
     match decodeAll decodeParam ps, decodeAll decodeQubit qs, n.toNat?, decodeRes out with
     | some ps, some qs, some n, some impl =>
       let model := resOfModel (toUnitary0 name ps qs n)
-      let agree := resAgree tol model impl
+      let kinds := gateErrKinds ⟨name, ps, qs, []⟩
+      let agree := resAgreeKinds tol kinds model impl
       -- specification, evaluated on the implementation's output: for a standard gate with real constant
       -- parameters on a valid placement the result is the lifted specification matrix
       let spec : Option M :=
@@ -37,7 +38,7 @@ def handle0 (inp out : Sexp) : CaseResult :=
       let specOk := match spec, impl with
         | some s, .ok m => closeMat tol s m
         | some _, _ => false
-        | none, _ => true
+        | none, _ => rejectedOk kinds model impl
       let tags := (match spec with | some _ => ["std", s!"g-{name}"] ++ placementTags ((fixedOnly qs).getD []) n
                                    | none => ["nonstd"]) ++
                   [match impl with | .ok _ => "ok" | .err k => s!"err-{k}" | .crash => "crash" | .timeout => "timeout"]
@@ -64,12 +65,13 @@ def handle0 (inp out : Sexp) : CaseResult :=
     match decodeAll decodeInstr is, n.toNat?, decodeRes out with
     | some is, some n, some impl =>
       let model := progRes (QV.C15.progUnitary is n)
-      let agree := resAgree tol model impl
+      let kinds := progErrKinds is
+      let agree := resAgreeKinds tol kinds model impl
       let spec := progSpec is n
       let specOk := match spec, impl with
         | some s, .ok m => closeMat 1e-10 s m
         | some _, _ => false
-        | none, _ => true
+        | none, _ => rejectedOk kinds model impl
       let names := is.filterMap fun | .gate g => some s!"g-{g.name}" | _ => none
       { agree := agree, specOk := specOk, nontrivial := spec.isSome,
         tags := ["progu", s!"len{is.length}", s!"n{n}", if spec.isSome then "std" else "nonstd"] ++ names ++
